@@ -7,22 +7,28 @@ from mbt import tlc
 EXPECT_VIOLATION = {"GW_close_unfixed": "invariant"}
 
 
+def _split(c):
+    return c if isinstance(c, tuple) else ("Gateway", c)
+
+
 def check(ctx, cfgs, mutants=()):
     states = trans = 0
     detail = {}
-    for cfg in cfgs:
-        r = tlc.run("Gateway", cfg + ".cfg", scratch=ctx.scratch, coverage=True, timeout=3000)
+    for c in cfgs:
+        module, cfg = _split(c)
+        r = tlc.run(module, cfg + ".cfg", scratch=ctx.scratch, coverage=True, timeout=3000)
         if not r.ok:
-            ctx.machinery(f"TLC Gateway/{cfg}: {r.violated}: {r.error[:1000]}")
+            ctx.machinery(f"TLC {module}/{cfg}: {r.violated}: {r.error[:1000]}")
         dead = sorted(a for a, (d, t) in r.coverage.items() if t == 0)
         states += r.distinct
         trans += r.generated
         detail[cfg] = {"generated": r.generated, "distinct": r.distinct, "depth": r.depth, "never_taken": dead}
-        ctx.note(f"TLC Gateway/{cfg}: {r.generated} states, {r.distinct} distinct, depth {r.depth}, {r.wall:.1f}s; never taken: {dead}")
-    for cfg in mutants:
-        r = tlc.run("Gateway", cfg + ".cfg", scratch=ctx.scratch, timeout=1200)
+        ctx.note(f"TLC {module}/{cfg}: {r.generated} states, {r.distinct} distinct, depth {r.depth}, {r.wall:.1f}s; never taken: {dead}")
+    for c in mutants:
+        module, cfg = _split(c)
+        r = tlc.run(module, cfg + ".cfg", scratch=ctx.scratch, timeout=1200, parse_trace=False)
         if not r.violated or r.violated == "error":
-            ctx.machinery(f"TLC mutant Gateway/{cfg} was not killed: {r.violated} {r.error[:300]}")
-        detail[cfg] = {"killed_by": r.violated, "trace_len": len(r.trace)}
-        ctx.note(f"TLC mutant Gateway/{cfg}: killed by {r.violated} ({len(r.trace)} states)")
+            ctx.machinery(f"TLC mutant {module}/{cfg} was not killed: {r.violated} {r.error[:300]}")
+        detail[cfg] = {"killed_by": r.violated}
+        ctx.note(f"TLC mutant {module}/{cfg}: killed by {r.violated}")
     return {"states": states, "transitions": trans, "detail": detail}
